@@ -335,6 +335,9 @@ func runJob(job *Job) *JobResult {
 		solverName = "z3"
 	}
 	tmo := 60000
+	if job.Tier == "thorough" {
+		tmo = 240000
+	}
 	if s := os.Getenv("SYMGO_SOLVER_TIMEOUT_MS"); s != "" {
 		tmo, _ = strconv.Atoi(s)
 	}
